@@ -14,6 +14,9 @@ size limit of ISO-BMFF and appear only where a size is read back.
 namespace DashLive.C10
 open DashLive.InitRewrite DashLive.PlayReady
 
+/-- a key id used in examples -/
+def exKidPlaceholder : Bytes := List.replicate 16 7
+
 /-! ### which pssh boxes are appended -/
 
 /-- the property's reading of a selection: the locations requested for a system
@@ -276,6 +279,43 @@ theorem init_wellformed (isC : Bytes → Bool) (pre post cs : List Box) (psshs :
         refine ⟨rfl, hpssh, ?_⟩
         simp only [PsshSpec.bytes, encodePssh, List.length_append, be32_length] at this
         omega
+
+/-! ### history independence -/
+
+/-- **init_history_independent** – whatever was served before (init segments, manifests of
+any mode, media, licence requests), the shared option state is still what it was at import,
+and the response to an init request is the response a fresh process gives: a function of the
+request only. -/
+theorem init_history_independent (hist : List Req) (r : InitReq) :
+    (serveAll Shared.init hist).2 = Shared.init ∧
+    (serveAll Shared.init (hist ++ [.init r])).1
+      = (serveAll Shared.init hist).1 ++ [serveInit Shared.init r] ∧
+    serveInit Shared.init r
+      = (parseSelection r.drm).map fun sel =>
+          initBytes r.top (initPsshs r.encrypted r.version r.lastAlgIsAesCtr sel r.kids r.pro) r.live := by
+  have hstate : ∀ (s : Shared) (l : List Req), (serveAll s l).2 = s := by
+    intro s l
+    induction l generalizing s with
+    | nil => rfl
+    | cons q qs ih =>
+      have hq : (serve s q).2 = s := by cases q <;> rfl
+      simp only [serveAll, hq, ih]
+  have happ : ∀ (s : Shared) (l : List Req) (q : Req),
+      (serveAll s (l ++ [q])).1 = (serveAll s l).1 ++ [(serve (serveAll s l).2 q).1] := by
+    intro s l q
+    induction l generalizing s with
+    | nil => simp [serveAll]
+    | cons x xs ih => simp [serveAll, ih]
+  refine ⟨hstate _ _, ?_, rfl⟩
+  rw [happ, hstate]
+  rfl
+
+/-- the shared default matters: were `moov` removed from the shared set (what an in-place
+`discard` on the set handed out by the parser does), a bare `drm=playready` – the selection
+`[(playready, shared set)]` – would lose its pssh – the dependency the `init_history` channel guards -/
+example :
+    (initPsshs true none true [(Sys.playready, [Loc.cenc, Loc.pro])] [exKidPlaceholder] []).length = 0 ∧
+    (initPsshs true none true [(Sys.playready, Loc.all)] [exKidPlaceholder] []).length = 1 := by decide
 
 /-! ### non-vacuity: a concrete init segment -/
 
